@@ -33,6 +33,7 @@ type c19Scenario struct {
 	EarlyEnd   bool     `json:"early_outcome"` // the server ends SASL (outcome numerics) without ever asking for the data
 	Cycles     int      `json:"cycles"`        // the same client negotiates again after a reconnect (0/1 = once)
 	LateNak    bool     `json:"late_nak"`      // after everything else the server NAKs a request naming a capability that is held
+	ReAck      bool     `json:"re_ack"`        // the server acknowledges the same capabilities once more (sasl then starts again)
 }
 
 // capModel is the negotiation model written from the property statement.
@@ -379,6 +380,19 @@ func runC19Once(sc *c19Scenario, tc *testClient, m *capModel, cycle int) *Violat
 			}
 		}
 	}
+	if sc.ReAck && sc.Reply != "nak" {
+		// a repeated acknowledgement: sasl (if configured and named) starts again and must again be brought to an end
+		early := sc.EarlyEnd
+		sc.EarlyEnd = false
+		v := ack("after a repeated ACK", req)
+		if v == nil {
+			v = saslFlow()
+		}
+		sc.EarlyEnd = early
+		if v != nil {
+			return v
+		}
+	}
 	if sc.LateNak {
 		// a refused later request names a capability that is held: nothing changes on the server
 		got, v := step(":irc.server CAP me NAK :" + req[0] + " not-offered")
@@ -449,7 +463,7 @@ func TestC19_Enum(t *testing.T) {
 							}
 							sc := &c19Scenario{Wanted: wanted, Sasl: sm, Authzid: "", User: "user", Pass: "p w", Advertised: adv, Reply: reply, Outcome: outcome, Stray: stray}
 							// three more binary dimensions, spread over the enumeration rather than multiplied into it
-							sc.EarlyEnd, sc.LateNak = i%3 == 0, i%5 == 0
+							sc.EarlyEnd, sc.LateNak, sc.ReAck = i%3 == 0, i%5 == 0, i%7 == 0 || i%9 == 0
 							if i%2 == 0 {
 								sc.Cycles = 2
 							}
@@ -491,7 +505,7 @@ func genC19(t *rapid.T) *c19Scenario {
 	universe = uniqStrings(universe)
 	sc := &c19Scenario{Sasl: rapid.SampledFrom([]string{"", "PLAIN", "EXTERNAL"}).Draw(t, "sasl"),
 		Reply: rapid.SampledFrom([]string{"ack_split", "ack_split", "nak", "ack", "two_ls", "ack_reversed"}).Draw(t, "reply"), Outcome: rapid.SampledFrom([]string{"903", "904", "908"}).Draw(t, "outcome"),
-		Stray: rapid.Bool().Draw(t, "stray"), EarlyEnd: rapid.Bool().Draw(t, "early_end"), LateNak: rapid.Bool().Draw(t, "late_nak"), Cycles: rapid.IntRange(1, 3).Draw(t, "cycles")}
+		Stray: rapid.Bool().Draw(t, "stray"), EarlyEnd: rapid.Bool().Draw(t, "early_end"), LateNak: rapid.Bool().Draw(t, "late_nak"), ReAck: rapid.Bool().Draw(t, "re_ack"), Cycles: rapid.IntRange(1, 3).Draw(t, "cycles")}
 	for _, c := range universe {
 		switch rapid.IntRange(0, 3).Draw(t, "membership") {
 		case 0:
